@@ -41,7 +41,7 @@ class Agg(object):
         size = (len(sched), cfg["n"], cfg["m"], sched)
         # signature: component, call, kind of mismatch, buffer mode (+ reset); the element kind and
         # yield_on_remainder of the smallest failing scenario are in the detail
-        k = (comp, call, mismatch, ("bufin" if cfg["bufIn"] else "bufout") + (":reset" if cfg["reset"] else ""))
+        k = (comp, call, mismatch, key_class(cfg, call))
         if k not in self.fails or size < self.fails[k][0]:
             self.fails[k] = (size, dict(detail, cfg=cfg, scenario=sched))
 
@@ -51,6 +51,11 @@ class Agg(object):
                                detail)
         if self.skipped:
             self.ctx.extra["scenarios_skipped_after_repeated_failure"] = self.skipped
+
+
+def key_class(cfg, call="run"):
+    return (("bufin" if cfg["bufIn"] else "bufout") + (":reset" if cfg["reset"] else "") +
+            (":yor" if cfg["yor"] and call == "run" else "") + (":lazy-element" if cfg.get("take") else ""))
 
 
 class NoAgg(object):
@@ -231,7 +236,7 @@ def replay_run(ctx, agg, rec, thorough):
             ok &= check_whole(agg, "FillRequest(Sum)", "run", cfg, "N=%d" % n_values, st, val,
                               [sum(r["p"]) for r in rec["out"]])
             ctx.case(["run-sum", cfg, n_values], nontrivial=n_values > 0)
-        if cfg["kind"] == "run" and not cfg["pv"] and cfg["m"] == 1:
+        if cfg["kind"] == "run" and not cfg["pv"] and cfg["m"] == 1 and not cfg["take"]:
             # lena.core.Run(fill/compute element) as the wrapped run element
             def make():
                 c2 = dict(cfg, reset=False)
@@ -327,7 +332,8 @@ def misc(ctx):
 # ------------------------------------------------------------------ random scenarios (C2S)
 def random_cfg(rnd, kinds):
     return {"n": rnd.choice([1, 2, 3, 4, 5, 6, 8]), "bufIn": rnd.random() < 0.5, "reset": rnd.random() < 0.5,
-            "yor": rnd.random() < 0.25, "kind": rnd.choice(kinds), "m": rnd.choice([0, 1, 1, 2, 3]), "pv": False}
+            "yor": rnd.random() < 0.25, "kind": rnd.choice(kinds), "m": rnd.choice([0, 1, 1, 2, 3]), "pv": False,
+            "take": 0}
 
 
 def record_random(ctx, agg, rnd, count):
@@ -345,6 +351,8 @@ def record_random(ctx, agg, rnd, count):
         elif what == "run":
             cfg = random_cfg(rnd, ["fc", "fr", "both", "run"])
             cfg["pv"] = cfg["kind"] == "run" and rnd.random() < 0.5
+            if cfg["kind"] == "run" and cfg["n"] > 1 and rnd.random() < 0.4:
+                cfg["take"] = rnd.randint(1, cfg["n"] - 1)
             n_values = rnd.randint(0, 40)
             st, val = run_whole(lambda: fl.build_fr(cfg)[0], n_values, fl.norm)
             trace.append({"e": "run", "cfg": cfg, "N": n_values, "out": val} if st == "ok" else
@@ -376,7 +384,7 @@ def trace_key(trace, spans):
         idx = next(i for i, x in enumerate(trace) if x is r)
         a, b = next(sp for sp in spans if sp[0] <= idx < sp[1])
         cfg = trace[a].get("cfg")
-        mode = (("bufin" if cfg["bufIn"] else "bufout") + (":reset" if cfg["reset"] else "")) if cfg else ""
+        mode = key_class(cfg, "run" if trace[a].get("e") == "run" else "") if cfg else ""
         what = {"new": "fill/request", "f": "fill/request", "r": "fill/request"}.get(trace[a].get("e"), r.get("at", r.get("e")))
         return "%s:%s:%s" % (what, r.get("e"), mode)
     return key
